@@ -194,11 +194,11 @@ theorem okC_free {w : World} {c : Nat} {s : Store} (hin : okC w c = true) (hl : 
 open World in
 theorem okH_free {w : World} {hh : Nat} {e : CHE} {s : Store} (hin : okH w hh = true) (hl : w.liveH hh = some (e, s)) :
     w.cifBusy e.cif = false ∧ e.h.validB s.db = true := by
-  unfold okH at hin; rw [hl] at hin; simp only [Bool.and_eq_true, Bool.not_eq_true'] at hin; exact hin
+  unfold okH CH.okB at hin; rw [hl] at hin; simp only [Bool.and_eq_true, Bool.not_eq_true'] at hin; exact ⟨hin.1, hin.2.1⟩
 open World in
 theorem okL_free {w : World} {l : Nat} {e : LHE} {s : Store} (hin : okL w l = true) (hl : w.liveL l = some (e, s)) :
     w.cifBusy e.cif = false ∧ e.h.validB s.db = true := by
-  unfold okL at hin; rw [hl] at hin; simp only [Bool.and_eq_true, Bool.not_eq_true'] at hin; exact hin
+  unfold okL LH.okB at hin; rw [hl] at hin; simp only [Bool.and_eq_true, Bool.not_eq_true'] at hin; exact ⟨hin.1, hin.2.1⟩
 
 
 -- ---- the iterator table under a change of the iterated CIF ---------------------------------------------------------------------------
@@ -775,7 +775,9 @@ theorem specStep_refines (w : World) (op : Op) (h : WOk w) (hin : inContract w o
       have hg := (h.good.live hs).db
       have hin' : (w.cifBusy e.cif || e.h.validB s.db) = true := by
         have : okLOpen w l = true := hin
-        unfold okLOpen at this; rw [hl] at this; exact this
+        unfold okLOpen LH.okB at this; rw [hl] at this
+        simp only [Bool.or_eq_true, Bool.and_eq_true] at this ⊢
+        exact this.imp id (fun h => h.1)
       simp only [Option.map_some, cifBusy_absW]
       cases hb : w.cifBusy e.cif with
       | true =>
